@@ -18,13 +18,13 @@ TRUSTED = [
     "CPython dict / WeakKeyDictionary iteration order (insertion order) for the remembered parents",
     "CPython weakref: user handlers die when the harness drops its last strong reference; owners and Computeds stay alive "
     "for the whole scenario (garbage collection of owners is not modelled)",
-    "every Observable is assigned (0) before it is read; values are ints",
+    "every Observable is assigned (0) before it is read; values are ints or None",
 ]
 ASSUMPTIONS = [
     "Computed functions terminate and Computables are defined before they are read (a function reads only Computables defined earlier)",
     "user handlers do not subscribe / unsubscribe / assign while being notified; they may read Computables (known finding G7)",
 ]
-RULE = ("random dependency structures: 1-2 owners, 2-4 Observables with values {0,1,2}, 1-3 Computables whose functions are "
+RULE = ("random dependency structures: 1-2 owners, 2-4 Observables with values {0,1,2,1000,1001,None}, 1-3 Computables whose functions (returning small ints or None) are "
         "random read trees of depth <= 3 that branch on what they read (so the set of Observables read switches), read earlier "
         "Computables (chains), raise on some branches (2/12 of the scenarios) and - in 1/12 of the scenarios - assign Observables; 8-30 ops (going on after an operation raised) from assign (incl. restoring "
         "values), read, late definitions, user handlers observing Observables and Computables (in 1/10 of the scenarios the "
